@@ -44,7 +44,7 @@ def _work(args):
     seed, idx = args
     rng = random.Random(seed * 7919 + idx)
     scratch.scratch_dir() or scratch.enter_scratch()
-    grp = gen.make_group(rng, idx, groups=("core", "control", "validity"), max_rows=7)
+    grp = gen.make_group(rng, idx, groups=("core", "control", "validity"), max_rows=7, modes=rng.random() < 0.3)
     nsig = 0
     # a direct signal on a chosen record: '<line_number() == n> -> x_all()' at a random position of a random member
     for _ in range(rng.choice([0, 1, 1, 2])):
